@@ -2,8 +2,6 @@ package c16
 
 import (
 	"fmt"
-	"math/big"
-	"sort"
 
 	"github.com/nspcc-dev/neo-go/pkg/core/native/nativehashes"
 	"github.com/nspcc-dev/neo-go/pkg/core/state"
@@ -56,16 +54,16 @@ func genNatCase(t *rapid.T) NatCase {
 		t.Fatalf("setup: %v", err)
 	}
 	ms := w.natMethods()
-	m := ms[rapid.IntRange(0, len(ms)-1).Draw(t, "method")]
+	m := ms[uniform(t, len(ms), "method")]
 	c := NatCase{Method: m.Name, Golden: -1}
-	if rapid.IntRange(0, 2).Draw(t, "useGolden") != 0 {
-		c.Golden = rapid.IntRange(0, 5).Draw(t, "golden")
+	if uniform(t, 3, "useGolden") != 0 {
+		c.Golden = uniform(t, 6, "golden")
 	}
 	for range m.M.Parameters {
-		c.Picks = append(c.Picks, rapid.IntRange(0, 23).Draw(t, "pick"))
+		c.Picks = append(c.Picks, uniform(t, 24, "pick"))
 	}
-	c.Signers = rapid.SampledFrom([]int{1, 1, 1, 1, 0, 2, 3}).Draw(t, "signers")
-	c.Via = rapid.SampledFrom([]int{0, 0, 1}).Draw(t, "via")
+	c.Signers = pick(t, []int{1, 1, 1, 1, 0, 2, 3}, "signers")
+	c.Via = pick(t, []int{0, 0, 1}, "via")
 	return c
 }
 
@@ -166,7 +164,7 @@ func (w *world) golden() map[string][][]any {
 			"RoleManagement.designateAsRole/2":     {{int64(8), []any{rk}}, {int64(4), []any{rk, ck.RoleKeys[1].Pub.Bytes()}}, {int64(32), []any{rk}}},
 			"RoleManagement.getDesignatedByRole/2": {{int64(32), h + 1}},
 
-			"OracleContract.request/5": {{"https://x.example/a", nil, "oracleCb", nil, int64(1000_0000)}, {"https://x.example/b", "$.a", "oracleCb", []byte("ud"), int64(2000_0000)}},
+			"OracleContract.request/5":  {{"https://x.example/a", nil, "oracleCb", nil, int64(1000_0000)}, {"https://x.example/b", "$.a", "oracleCb", []byte("ud"), int64(2000_0000)}},
 			"OracleContract.setPrice/1": {{int64(6000_0000)}},
 			"OracleContract.finish/0":   {{}},
 
@@ -203,8 +201,8 @@ func (w *world) golden() map[string][][]any {
 			"StdLib.base64UrlDecode/1": {{"YWJj"}}, "StdLib.hexDecode/1": {{"0102"}}, "StdLib.jsonDeserialize/1": {{[]byte(`{"a":[1,2]}`)}},
 			"StdLib.deserialize/1": {{mustSerialize(42)}}, "StdLib.memorySearch/3": {{[]byte("abcabc"), []byte("c"), int64(1)}},
 			"StdLib.memorySearch/4": {{[]byte("abcabc"), []byte("c"), int64(6), true}}, "StdLib.stringSplit/3": {{"a,b,,c", ",", true}},
-			"CryptoLib.verifyWithECDsa/4": {{[]byte("msg"), a[0].Pub.Bytes(), a[0].Priv.Sign([]byte("msg")), int64(23)}},
-			"CryptoLib.murmur32/2":        {{[]byte("abc"), int64(5)}},
+			"CryptoLib.verifyWithECDsa/4":  {{[]byte("msg"), a[0].Pub.Bytes(), a[0].Priv.Sign([]byte("msg")), int64(23)}},
+			"CryptoLib.murmur32/2":         {{[]byte("abc"), int64(5)}},
 			"CryptoLib.recoverSecp256K1/2": {{hash.Sha256([]byte("m")).BytesBE(), make([]byte, 65)}},
 		}
 		w.goldenMap = g
@@ -326,7 +324,7 @@ func checkNatCase(c NatCase, o *vt.Obs) error {
 		}
 		// What the confined code (the native method, running with the requested flags; a safe method additionally
 		// without write and notify rights whatever was requested) did beyond being invoked once itself.
-		calls := out.callsExcept(m.C.Manifest.Name, proxy.Name) + out.Invoc[m.C.Manifest.Name] - 1
+		calls := out.Calls + out.Invoc[m.C.Manifest.Name] - 1
 		if c.Via == 1 {
 			calls += out.Invoc[proxy.Name] - 1
 		} else {
@@ -401,51 +399,9 @@ func checkNatCase(c NatCase, o *vt.Obs) error {
 	return nil
 }
 
-// natHaltReport (debugging / vacuity control): for every native method, under which requested flag sets the realistic
-// tuples HALT and with which effects.
-func (w *world) natHaltReport() []string {
-	var out []string
-	for _, m := range w.natMethods() {
-		n := max(1, len(w.golden()[m.Name]))
-		for gi := 0; gi < n; gi++ {
-			for via := 0; via < 2; via++ {
-				c := NatCase{Method: m.Name, Golden: gi, Signers: 1, Via: via}
-				if m.Name == "OracleContract.finish/0" {
-					c.Signers = 3
-				}
-				args, _ := w.natArgs(m, c)
-				var hs []string
-				eff := ""
-				for f := 0; f < 16; f++ {
-					var script []byte
-					if via == 1 {
-						script = appCall(w.ps[0].Hash, "call", callflag.All, hb(m.C.Hash), m.M.Name, int64(f), args)
-					} else {
-						script = appCall(m.C.Hash, m.M.Name, callflag.CallFlag(f), args...)
-					}
-					ic, _ := w.newIC(trigger.Application, w.natTx(c.Signers))
-					ic.VM.LoadWithFlags(script, callflag.All)
-					o := w.run(ic, m.C.Hash, w.ps[0].Hash)
-					if o.Halt {
-						hs = append(hs, flagName(f))
-						eff = o.effects()
-					} else if f == 15 {
-						eff = "FAULT " + firstLine(o.Err)
-					}
-				}
-				sort.Strings(hs)
-				out = append(out, fmt.Sprintf("%-52s g%d via%d halts=%d %v  %s", m.Name, gi, via, len(hs), hs, clipS(eff, 260)))
-			}
-		}
-	}
-	return out
-}
-
 func clipS(s string, n int) string {
 	if len(s) > n {
 		return s[:n] + "..."
 	}
 	return s
 }
-
-var _ = big.NewInt
